@@ -762,7 +762,7 @@ class PythonTypesBackend(CodeBackend):
 
         self.generate_multiline_list(
             tag_to_subtype_items,
-            before='{}._tag_to_subtype_ = '.format(data_type.name),
+            before='{}._tag_to_subtype_ = '.format(class_name_for_data_type(data_type)),
             delim=('{', '}'),
             compact=False)
 
@@ -778,13 +778,14 @@ class PythonTypesBackend(CodeBackend):
                 generate_validator_constructor(ns, subtype)))
         self.generate_multiline_list(
             items,
-            before='{}._pytype_to_tag_and_subtype_ = '.format(data_type.name),
+            before='{}._pytype_to_tag_and_subtype_ = '.format(
+                class_name_for_data_type(data_type)),
             delim=('{', '}'),
             compact=False)
 
         # Generate _is_catch_all_ attribute:
         self.emit('{}._is_catch_all_ = {!r}'.format(
-            data_type.name, data_type.is_catch_all()))
+            class_name_for_data_type(data_type), data_type.is_catch_all()))
 
         self.emit()
 
